@@ -1101,6 +1101,8 @@ class SyncState:  # pylint: disable=too-many-instance-attributes, too-many-publi
             if ent.storage_id is not None:
                 if ent.is_trash:
                     self._storage.delete(tag, ent.storage_id)
+                    # the row is gone: forget its id, storage may hand it to another entry
+                    ent.storage_id = None
                 else:
                     self._storage.update(tag, ent.serialize(), ent.storage_id)
             else:
